@@ -193,8 +193,8 @@ static void scen_c13(int rounds, int nasym) {
         tr("hist %d", h);
         tpm2_fresh(h == 0 ? NULL : (h == 1 ? PROFILE_DEFAULT_V1 : PROFILE_CUSTOM)); tpm2_startup(&b, 0);
         for (int i = 0; i < rounds; i++) {
-            switch (rnd(12)) { case 0: case 1: c13_hash(&b); break; case 2: c13_hmac(&b); break; case 3: case 4: case 5: c13_sequence(&b); break;
-                case 8: case 9: c13_sym2(&b); break; case 10: c13_ecc(&b); break; default: c13_sym(&b); break; }
+            switch (rnd(13)) { case 0: case 1: c13_hash(&b); break; case 2: c13_hmac(&b); break; case 3: case 4: case 5: c13_sequence(&b); break;
+                case 8: case 9: c13_sym2(&b); break; case 10: c13_ecc(&b); break; case 11: c13_cmac(&b); break; default: c13_sym(&b); break; }
         }
         if (h < nasym) c13_asym(&b);
     }
